@@ -190,7 +190,9 @@ pub fn check(prop: &str, scn: &Scenario, rf: &Ref, ex: &Exec) -> Verdict {
             // a chunk size near usize::MAX over a source that is not indexable: `begin + c` overflows inside the
             // concurrent iterator (builds with overflow checks); its own finding class
             let huge = scn.cs.iter().any(|x| matches!(x.1, Chunk::Exact(c) | Chunk::Min(c) if c >= 1 << 62));
-            let overflow = ex.panic_msgs.iter().any(|m| m.contains("attempt to add with overflow") && m.contains("orx-concurrent-iter"));
+            // (or, where the pull is buffered, `Vec::with_capacity(c)` fails with "capacity overflow": the same input,
+            // the same cause - c is not bounded by anything for these sources)
+            let overflow = ex.panic_msgs.iter().any(|m| (m.contains("attempt to add with overflow") && m.contains("orx-concurrent-iter")) || m.contains("capacity overflow"));
             if huge && overflow && (scn.src.is_iter() || scn.src.is_collection()) {
                 for x in out.iter_mut() {
                     if x.key == "panic" {
